@@ -4,7 +4,7 @@ ID = "C10"
 LEVEL = "proof"
 TAGS = ("C10",)
 CONTRACT_MODULES = ALL_CONTRACTS
-FUNCTIONS = [S + "resetState", P + "on_event"]
+FUNCTIONS = [S + "resetState", P + "on_event", S + "enterExcludedRegion", S + "_processPendingCommands"]
 ASSUMPTIONS = ["A1", "A3", "A4", "INDUCTION"]
 PER_PRINT = ("position", "feedRate", "feedRateUnitMultiplier", "_exclusionEnabled", "excluding", "excludeStartTime",
              "numExcludedCommands", "numCommands", "lastRetraction", "lastPosition", "pendingCommands")
@@ -57,8 +57,10 @@ EXPLANATION = ("(a) resetState(False) from an ARBITRARY pre-state (all shapes of
                "real constructor -- and keeps configuration and regions; on_event(PRINT_STARTED) performs it and sets the job flag "
                "(lifecycle clause). (b) inventory: an AST scan shows that every attribute assigned anywhere in ExcludeRegionState is "
                "configuration, the region list or a per-print field written by resetState, and that GcodeHandlers/StreamProcessorComm "
-               "hold no other state; together with the footprint argument (assumptions) the output after a reset is a function of "
-               "regions, settings and program.")
+               "hold no other state; (c) the lists handed out by enterExcludedRegion and _processPendingCommands, which their callers "
+               "extend, are never the configured script objects themselves (aliasing clauses), so no history can grow the settings; "
+               "together with the footprint argument (assumptions) the output after a reset is a function of regions, settings and "
+               "program.")
 BREAKERS = [
     {"module": "ExcludeRegionState", "old": "        self.lastRetraction = None\n        self.lastPosition = None\n        self.pendingCommands = OrderedDict()",
      "new": "        self.lastPosition = None\n        self.pendingCommands = OrderedDict()", "desc": "owed retraction survives a reset",
